@@ -349,6 +349,13 @@ Lemma rcross_lincomb n a b c (U V W : V3) :
   radd (rscale a (rcross n U)) (radd (rscale b (rcross n V)) (rscale c (rcross n W))).
 Proof. vring. Qed.
 
+(* RBC = n x BC on every barycentric element: both spaces carry the same coefficients (same dof_transformation and
+   local2global, checked on every run) and differ in the evaluator only *)
+Lemma rbc_n_cross_bc T c0 c1 c2 st :
+  radd (rscale c0 (snc_eval T 0 st)) (radd (rscale c1 (snc_eval T 1 st)) (rscale c2 (snc_eval T 2 st))) =
+  rcross (normal T) (radd (rscale c0 (rwg_eval T 0 st)) (radd (rscale c1 (rwg_eval T 1 st)) (rscale c2 (rwg_eval T 2 st)))).
+Proof. unfold snc_eval. symmetry. apply rcross_lincomb. Qed.
+
 Section MainSNC.
   Variable coeffs : list (list (list Q)).
   Hypothesis sweep : forall a j, (a < 3)%nat -> (j < 6)%nat -> rwg_entry_ok coeffs (a, j) = true.
